@@ -383,6 +383,11 @@ def serialize_result(end_event, success_name='', fmt=lambda x: x) -> str:
     return success if not error_code else err
 
 
+def without_records(events, records):
+    """ The events minus the given records, by identity: two lookup records of a window can be equal byte for byte. """
+    return [e for e in events if not any(e is record for record in records)]
+
+
 def serialize_access_flags(flags: int) -> List[BscAccessFlags]:
     amode = [flag for flag in BscAccessFlags if flag.value & flags]
     if not amode:
@@ -5013,7 +5018,7 @@ def handle_sys_close(parser, events, no_cancel=False):
 
 def handle_link(parser, events):
     old_vnode = parser.parse_vnode(events)
-    new_vnode = parser.parse_vnode([e for e in events if e not in old_vnode.ktraces])
+    new_vnode = parser.parse_vnode(without_records(events, old_vnode.ktraces))
     return BscLink(events, old_vnode.path, new_vnode.path, serialize_result(events[-1]))
 
 
@@ -5391,7 +5396,7 @@ def handle_setregid(parser, events):
 
 def handle_rename(parser, events):
     old_vnode = parser.parse_vnode(events)
-    new_vnode = parser.parse_vnode([e for e in events if e not in old_vnode.ktraces])
+    new_vnode = parser.parse_vnode(without_records(events, old_vnode.ktraces))
     return BscRename(events, old_vnode.path, new_vnode.path, serialize_result(events[-1]))
 
 
@@ -5514,7 +5519,7 @@ def handle_quotactl(parser, events):
 
 def handle_mount(parser, events):
     src_vnode = parser.parse_vnode(events)
-    dst_vnode = parser.parse_vnode([e for e in events if e not in src_vnode.ktraces])
+    dst_vnode = parser.parse_vnode(without_records(events, src_vnode.ktraces))
     args = events[0].values
     return BscMount(events, src_vnode.path, dst_vnode.path, args[2], args[3], serialize_result(events[-1]))
 
@@ -5655,7 +5660,7 @@ def handle_getdirentriesattr(parser, events):
 
 def handle_exchangedata(parser, events):
     vnode1 = parser.parse_vnode(events)
-    vnode2 = parser.parse_vnode([e for e in events if e not in vnode1.ktraces])
+    vnode2 = parser.parse_vnode(without_records(events, vnode1.ktraces))
     args = events[0].values
     return BscExchangedata(events, vnode1.path, vnode2.path, args[2], serialize_result(events[-1]))
 
@@ -6262,7 +6267,7 @@ def handle_getattrlistbulk(parser, events):
 
 def handle_clonefileat(parser, events):
     src = parser.parse_vnode(events)
-    dst = parser.parse_vnode([e for e in events if e not in src.ktraces])
+    dst = parser.parse_vnode(without_records(events, src.ktraces))
     args = events[0].values
     return BscClonefileat(events, args[0], src.path, args[2], dst.path, serialize_result(events[-1]))
 
